@@ -27,6 +27,7 @@ type c09Struct struct {
 var (
 	c09SchemaOnce sync.Once
 	c09Schema     graphql.Schema
+	c09SchemaQ    graphql.Schema // the same types with a query root only
 )
 
 func c09Obj() map[string]interface{} {
@@ -177,6 +178,11 @@ func c09FixedSchema() *graphql.Schema {
 			panic(err)
 		}
 		c09Schema = s
+		s2, err := graphql.NewSchema(graphql.SchemaConfig{Query: q, Types: []graphql.Type{r, in2}})
+		if err != nil {
+			panic(err)
+		}
+		c09SchemaQ = s2
 	})
 	return &c09Schema
 }
